@@ -63,7 +63,14 @@ pub fn gen_ops(rng: &mut Rng, n_recs: usize, has_err: bool, w: &Weights, max_ops
                 2 => rem.max(1),
                 3 => rem + 1,
                 4 => rem.saturating_sub(1).max(1),
-                _ => 1 + rng.below(12),
+                _ => {
+                    if n_recs > 500 && rng.chance(2, 3) {
+                        // large batches (also decreasing ones on a reused set)
+                        1 + rng.below(n_recs.min(6000))
+                    } else {
+                        1 + rng.below(12)
+                    }
+                }
             };
             ops.push(Op::ReadSetExact(n, rng.below(N_SLOTS)));
             est += n;
@@ -101,6 +108,36 @@ pub fn hist_input(rng: &mut Rng, fmt: Fmt, ctx: &Ctx, allow_invalid: bool) -> (V
         giant_len: 80,
         ..GenOpts::default()
     };
+    if !ctx.miri && rng.chance(1, 150) {
+        // thousands of small records: batches and exact reads of more than 1000 records
+        let n = 2000 + rng.below(6000);
+        let mut out = Vec::with_capacity(n * 24);
+        let mut long_from = if rng.chance(1, 2) { n / 2 + rng.below(n / 2) } else { usize::MAX };
+        for i in 0..n {
+            let l = if i >= long_from { 30 + rng.below(60) } else { rng.below(8) };
+            match fmt {
+                Fmt::Fasta => {
+                    out.extend_from_slice(format!(">r{}_{}\n", ctx.shard, i).as_bytes());
+                    let nl = 1 + (i * 7 + i / 5) % 3;
+                    for j in 0..nl {
+                        out.extend((0..l / nl + (j == 0) as usize).map(|k| b"ACGT"[(k + j) % 4]));
+                        out.push(b'\n');
+                    }
+                }
+                Fmt::Fastq => {
+                    out.extend_from_slice(format!("@r{}_{}\n", ctx.shard, i).as_bytes());
+                    out.extend((0..l).map(|k| b"ACGT"[k % 4]));
+                    out.extend_from_slice(b"\n+\n");
+                    out.extend((0..l).map(|_| b'I'));
+                    out.push(b'\n');
+                }
+            }
+            if i == long_from && rng.chance(1, 3) {
+                long_from = usize::MAX; // a single long record only
+            }
+        }
+        return (out, "big");
+    }
     if fmt == Fmt::Fastq && allow_invalid && rng.chance(1, 5) {
         let abs = gen::gen_abs(rng, fmt, &opts);
         if !abs.recs.is_empty() {
@@ -149,6 +186,18 @@ fn report_dev(
         rep.violation(&format!("{}-{}", case.fmt.name(), d.sig), d.what.clone(), j);
     } else {
         rep.map("deviations_of_other_properties", &format!("{}:{}", d.tag, d.sig));
+        if rep.notes.len() < 6 && !rep.notes.iter().any(|n| n.contains(&d.sig)) {
+            rep.notes.push(format!(
+                "deviation belonging to another property ({}:{}): {} | config {} faults {:?} ops {:?} trace {:?}",
+                d.tag,
+                d.sig,
+                d.what,
+                case.cfg.describe(),
+                case.faults,
+                case.ops,
+                out.trace
+            ));
+        }
     }
 }
 
@@ -166,6 +215,8 @@ fn add_stats(rep: &mut Report, out: &HOutcome) {
     rep.add("exact_reads_growing_with_batch", s.exact_grew_with_batch as u64);
     rep.add("source_errors_injected", s.injected_seen as u64);
     rep.add("policy_refusals", s.refusals_seen as u64);
+    rep.add("buffer_limits_with_record_pending", s.limits_kept_strict as u64);
+    rep.add("records_resumed_after_buffer_limit", s.resumed_after_limit as u64);
     if s.degraded {
         rep.count("histories_entering_degraded_mode");
     }
@@ -229,7 +280,15 @@ pub fn c04(ctx: &Ctx, rep: &mut Report) {
             continue;
         }
         let extents: Vec<usize> = r.recs.iter().map(|x| x.extent()).collect();
-        let cfg = strict_cfg(&mut rng, bytes.len(), &extents);
+        let mut cfg = strict_cfg(&mut rng, bytes.len(), &extents);
+        if family == "big" {
+            cfg.cap = *rng.pick(&[65536usize, 65536, 16384, 4096, 1000]);
+            if matches!(cfg.chunking, Chunking::OneByte | Chunking::Fixed(_)) {
+                cfg.chunking = Chunking::Fixed(4096);
+            }
+            rep.count("big_histories");
+        }
+        gen::tame(&mut cfg, bytes.len());
         let ops = gen_ops(&mut rng, r.recs.len(), r.has_err(), &w, if ctx.miri { 10 } else { 40 });
         let case = build_case(fmt, bytes, cfg, vec![], ops);
         rep.evaluations += 1;
@@ -283,6 +342,24 @@ pub fn c05(ctx: &Ctx, rep: &mut Report) {
         ctx.begin(idx);
         let mut rng = Rng::derive(&[ctx.seed, ctx.shard, idx, 5]);
         let fmt = if idx % 2 == 0 { Fmt::Fasta } else { Fmt::Fastq };
+        if idx % 200 < 2 && !ctx.miri {
+            // offsets beyond 4 GiB: a virtual 8 GiB file of 64-byte records
+            rep.evaluations += 1;
+            match crate::report::guarded(|| huge_offsets_case(&mut rng, fmt)) {
+                Ok(Ok(n)) => rep.add("positions_checked_beyond_4gib_file", n),
+                Ok(Err(m)) => {
+                    let mut j = ctx.replay_json(idx);
+                    j["virtual_file"] = json!("8 GiB of 64-byte records, see m_hist.rs huge_offsets_case");
+                    rep.violation(&format!("{}-huge-offset", fmt.name()), m, j);
+                }
+                Err(c) => crate::m_basic::caught_violation(rep, &c, "seeking in a file larger than 4 GiB", ctx.replay_json(idx)),
+            }
+            if ctx.only.is_some() {
+                break;
+            }
+            idx += 1;
+            continue;
+        }
         let (mut bytes, family) = hist_input(&mut rng, fmt, ctx, true);
         // FASTA inputs with leading blank lines so that the first header is not at (1,0)
         if fmt == Fmt::Fasta && rng.chance(1, 3) && bytes.first() == Some(&b'>') {
@@ -305,7 +382,15 @@ pub fn c05(ctx: &Ctx, rep: &mut Report) {
             continue;
         }
         let extents: Vec<usize> = r.recs.iter().map(|x| x.extent()).collect();
-        let cfg = strict_cfg(&mut rng, bytes.len(), &extents);
+        let mut cfg = strict_cfg(&mut rng, bytes.len(), &extents);
+        if family == "big" {
+            cfg.cap = *rng.pick(&[65536usize, 65536, 16384, 4096, 1000]);
+            if matches!(cfg.chunking, Chunking::OneByte | Chunking::Fixed(_)) {
+                cfg.chunking = Chunking::Fixed(4096);
+            }
+            rep.count("big_histories");
+        }
+        gen::tame(&mut cfg, bytes.len());
         let ops = gen_ops(&mut rng, r.recs.len(), r.has_err(), &w, if ctx.miri { 10 } else { 40 });
         let case = build_case(fmt, bytes, cfg, vec![], ops);
         rep.evaluations += 1;
@@ -443,9 +528,13 @@ pub fn c06(ctx: &Ctx, rep: &mut Report) {
         let extents: Vec<usize> = r.recs.iter().map(|x| x.extent()).collect();
         let mut cfg = gen::gen_config(&mut rng, bytes.len(), &extents);
         cfg.policy = hostile_policy(&mut rng);
+        gen::tame(&mut cfg, bytes.len());
         let faults = gen_faults(&mut rng);
         let ops = gen_ops(&mut rng, r.recs.len(), r.has_err(), &w, if ctx.miri { 12 } else { 40 });
         let case = build_case(fmt, bytes, cfg, faults, ops);
+        if ctx.only.is_some() && ctx.verbose {
+            eprintln!("CASE {}", serde_json::to_string_pretty(&case.describe()).unwrap());
+        }
         rep.evaluations += 1;
         let out = run_history(
             &case,
@@ -794,6 +883,7 @@ pub fn c14(ctx: &Ctx, rep: &mut Report) {
         if rng.chance(1, 3) {
             cfg.chunking = Chunking::Seeded(rng.next(), 5);
         }
+        gen::tame(&mut cfg, bytes.len());
         let ops = gen_ops(&mut rng, r.recs.len(), r.has_err(), &w, if ctx.miri { 8 } else { 30 });
         let base = build_case(fmt, bytes, cfg, vec![], ops);
         // fault-free run (also decides the interrupted-read clause: strict model, transcript identical)
@@ -949,4 +1039,195 @@ pub fn c14(ctx: &Ctx, rep: &mut Report) {
 #[allow(dead_code)]
 fn _unused(_: &[u8]) -> String {
     show(b"")
+}
+
+// ---------------------------------------------------------------------------
+// C05: offsets beyond 4 GiB on a virtual file (64-byte records, computed on the fly)
+
+pub struct VirtualSrc {
+    pub fmt: Fmt,
+    pub n_records: u64,
+    pub pos: u64,
+    pub seeks: u64,
+}
+
+pub const VREC: u64 = 64;
+
+fn vrecord(fmt: Fmt, k: u64) -> [u8; 64] {
+    let mut r = [b'A'; 64];
+    match fmt {
+        Fmt::Fasta => {
+            // '>' + 15 digits + LF + 46 bases + LF
+            let h = format!(">{:015}\n", k);
+            r[..17].copy_from_slice(h.as_bytes());
+            for (i, b) in r[17..63].iter_mut().enumerate() {
+                *b = b"ACGT"[(i + k as usize) % 4];
+            }
+            r[63] = b'\n';
+        }
+        Fmt::Fastq => {
+            // '@' + 16 digits + LF (18) + 21 bases + LF (22) + "+\n" (2) + 21 quals + LF (22)
+            let h = format!("@{:016}\n", k);
+            r[..18].copy_from_slice(h.as_bytes());
+            for (i, b) in r[18..39].iter_mut().enumerate() {
+                *b = b"ACGT"[(i + k as usize) % 4];
+            }
+            r[39] = b'\n';
+            r[40] = b'+';
+            r[41] = b'\n';
+            for b in r[42..63].iter_mut() {
+                *b = b'I';
+            }
+            r[63] = b'\n';
+        }
+    }
+    r
+}
+
+impl std::io::Read for VirtualSrc {
+    fn read(&mut self, buf: &mut [u8]) -> std::io::Result<usize> {
+        let total = self.n_records * VREC;
+        let mut n = 0;
+        while n < buf.len() && self.pos < total {
+            let k = self.pos / VREC;
+            let off = (self.pos % VREC) as usize;
+            let rec = vrecord(self.fmt, k);
+            let take = (64 - off).min(buf.len() - n);
+            buf[n..n + take].copy_from_slice(&rec[off..off + take]);
+            n += take;
+            self.pos += take as u64;
+        }
+        Ok(n)
+    }
+}
+
+impl std::io::Seek for VirtualSrc {
+    fn seek(&mut self, to: std::io::SeekFrom) -> std::io::Result<u64> {
+        self.seeks += 1;
+        match to {
+            std::io::SeekFrom::Start(p) => self.pos = p,
+            std::io::SeekFrom::Current(d) => self.pos = (self.pos as i64 + d) as u64,
+            std::io::SeekFrom::End(d) => self.pos = ((self.n_records * VREC) as i64 + d) as u64,
+        }
+        Ok(self.pos)
+    }
+}
+
+/// seeks around the 4 GiB offset and reads a few records; returns the number of positions checked
+pub fn huge_offsets_case(rng: &mut Rng, fmt: Fmt) -> Result<u64, String> {
+    use seq_io::fasta::{self, Record as _};
+    use seq_io::fastq::{self, Record as _};
+    let n_records: u64 = 1 << 27; // 8 GiB
+    let cap = *rng.pick(&[64usize, 100, 1000, 4096, 65536]);
+    let lines_per = match fmt {
+        Fmt::Fasta => 2u64,
+        Fmt::Fastq => 4,
+    };
+    let boundary = (1u64 << 32) / VREC;
+    let mut targets: Vec<u64> = vec![];
+    for _ in 0..6 {
+        targets.push(match rng.below(5) {
+            0 => boundary - 1 - rng.below(3) as u64,
+            1 => boundary + rng.below(3) as u64,
+            2 => (1u64 << 31) / VREC + rng.below(3) as u64 - 1,
+            3 => rng.below(1000) as u64,
+            _ => rng.next() % (n_records - 10),
+        });
+    }
+    let src = VirtualSrc {
+        fmt,
+        n_records,
+        pos: 0,
+        seeks: 0,
+    };
+    let mut checked = 0u64;
+    let id_of = |head: &[u8]| -> Option<u64> { std::str::from_utf8(head).ok()?.parse().ok() };
+    match fmt {
+        Fmt::Fasta => {
+            let mut rd = fasta::Reader::with_capacity(src, cap);
+            for (ti, &k) in targets.iter().enumerate() {
+                rd.seek(&fasta::Position::new(k * lines_per + 1, k * VREC))
+                    .map_err(|e| format!("seek failed: {}", e))?;
+                let steps = 1 + rng.below(4) as u64;
+                for j in 0..steps {
+                    let rec = rd.next().ok_or("end of input after seek")?.map_err(|e| format!("error after seek: {}", e))?;
+                    if id_of(rec.head()) != Some(k + j) {
+                        return Err(format!("after seek to record {} (byte {}), read {} returned head {:?}", k, k * VREC, j, show(rec.head())));
+                    }
+                    let p = rd.position().ok_or("no position after a record")?;
+                    if (p.line(), p.byte()) != ((k + j) * lines_per + 1, (k + j) * VREC) {
+                        return Err(format!(
+                            "record {}: position() is ({}, {}), true coordinates ({}, {})",
+                            k + j,
+                            p.line(),
+                            p.byte(),
+                            (k + j) * lines_per + 1,
+                            (k + j) * VREC
+                        ));
+                    }
+                    checked += 1;
+                }
+                if ti % 2 == 1 {
+                    let mut set = fasta::RecordSet::default();
+                    rd.read_record_set(&mut set).ok_or("end")?.map_err(|e| e.to_string())?;
+                    let mut want = k + steps;
+                    for r in &set {
+                        if id_of(r.head()) != Some(want) {
+                            return Err(format!("record set after record {}: head {:?}, expected {}", k + steps - 1, show(r.head()), want));
+                        }
+                        want += 1;
+                    }
+                    if let Some(p) = rd.position() {
+                        if (p.line(), p.byte()) != (want * lines_per + 1, want * VREC) {
+                            return Err(format!("position after a set read is ({}, {}), next unread record {} is at ({}, {})", p.line(), p.byte(), want, want * lines_per + 1, want * VREC));
+                        }
+                        checked += 1;
+                    }
+                }
+            }
+        }
+        Fmt::Fastq => {
+            let mut rd = fastq::Reader::with_capacity(src, cap);
+            for (ti, &k) in targets.iter().enumerate() {
+                rd.seek(&fastq::Position::new(k * lines_per + 1, k * VREC))
+                    .map_err(|e| format!("seek failed: {}", e))?;
+                let steps = 1 + rng.below(4) as u64;
+                for j in 0..steps {
+                    let rec = rd.next().ok_or("end of input after seek")?.map_err(|e| format!("error after seek: {}", e))?;
+                    if id_of(rec.head()) != Some(k + j) {
+                        return Err(format!("after seek to record {} (byte {}), read {} returned head {:?}", k, k * VREC, j, show(rec.head())));
+                    }
+                    let p = rd.position();
+                    if (p.line(), p.byte()) != ((k + j) * lines_per + 1, (k + j) * VREC) {
+                        return Err(format!(
+                            "record {}: position() is ({}, {}), true coordinates ({}, {})",
+                            k + j,
+                            p.line(),
+                            p.byte(),
+                            (k + j) * lines_per + 1,
+                            (k + j) * VREC
+                        ));
+                    }
+                    checked += 1;
+                }
+                if ti % 2 == 1 {
+                    let mut set = fastq::RecordSet::default();
+                    rd.read_record_set(&mut set).ok_or("end")?.map_err(|e| e.to_string())?;
+                    let mut want = k + steps;
+                    for r in &set {
+                        if id_of(r.head()) != Some(want) {
+                            return Err(format!("record set after record {}: head {:?}, expected {}", k + steps - 1, show(r.head()), want));
+                        }
+                        want += 1;
+                    }
+                    let p = rd.position();
+                    if (p.line(), p.byte()) != (want * lines_per + 1, want * VREC) {
+                        return Err(format!("position after a set read is ({}, {}), next unread record {} is at ({}, {})", p.line(), p.byte(), want, want * lines_per + 1, want * VREC));
+                    }
+                    checked += 1;
+                }
+            }
+        }
+    }
+    Ok(checked)
 }
